@@ -87,7 +87,7 @@ TIERS = {
                      stp_cover=(3, '{1, 2, 3}'), lpm_cover=(3, '{1, 2}', '{1, 2}'),
                      stp_dfs=(3, [1, 2, 3], 100000), lpm_dfs=(3, [1, 2], [1, 2], 1500),
                      rand=dict(count=20000, n=(4, 12), bufs=(1, 2, 3, 4), ws=(1, 2, 3)),
-                     ds=dict(maxn=4, ws=[1, 2, 3], bufs=[1, 2, 3], seeds=6, real_rounds=12, shared=20000)),
+                     ds=dict(maxn=4, ws=[1, 2, 3], bufs=[1, 2, 3], seeds=6, real_rounds=12, shared=8000)),
 }
 
 
